@@ -3,6 +3,7 @@ package mon
 import (
 	"fmt"
 	stackage "github.com/JesseCoretta/go-stackage"
+	"math"
 	"strings"
 
 	"verifharness/core"
@@ -120,7 +121,11 @@ func randListOp(r *core.Rng, L int, fifoOn bool, next func() any) LOp {
 			if r.Chance(1, 20) {
 				v = nil
 			}
-			return LOp{K: "Insert", Vals: []any{v}, I: r.Range(-1, L+1)}
+			at := r.Range(-1, L+1)
+			if r.Chance(1, 12) {
+				at = []int{math.MaxInt, math.MaxInt - 1, math.MinInt, math.MinInt + 1, 1 << 40, -(1 << 40)}[r.Intn(6)] // clamped to the ends
+			}
+			return LOp{K: "Insert", Vals: []any{v}, I: at}
 		case w < 61:
 			return LOp{K: "Remove", I: r.Range(-L-1, L+1)}
 		case w < 71:
@@ -165,10 +170,17 @@ func c01Run(c *core.Ctx, idx int) {
 		// that merely compares equal to it); compared by identity
 		plain := next
 		next = func() any {
-			if r.Chance(1, 8) {
+			switch r.Intn(24) {
+			case 0, 1, 2:
 				p := new(int)
 				*p = 5
 				return p
+			case 3:
+				return (*int)(nil) // a typed nil pointer is a value like any other: stored, found, returned
+			case 4:
+				return []any{plain()} // a slice is ONE value, also when it is the only argument
+			case 5:
+				return []any{plain(), plain(), plain()}
 			}
 			return plain()
 		}
